@@ -298,6 +298,13 @@ func tqLassoRun(w, m, npeers int, evs []tqEvent) (tqLassoState, string) {
 	if s.Panic != nil {
 		errs = fmt.Sprint(s.Panic)
 	}
+	if len(st.pending) != npeers {
+		// the body never reached its end: a queue operation blocked for ever
+		if errs == "" {
+			errs = "queue-operation-blocked-forever"
+		}
+		st.pending, st.running = make([]int, npeers), make([]int, npeers)
+	}
 	return st, errs
 }
 
@@ -361,6 +368,10 @@ func tqFindLasso(c *core.Ctx, w, m, npeers, maxPending, maxDepth int) *tqLasso {
 			st, errs := tqLassoRun(w, m, npeers, h)
 			c.Res.Transitions++
 			c.Res.Traces++
+			if errs == "queue-operation-blocked-forever" {
+				c.Violate("queue-operation-blocked-forever/lasso-search", fmt.Sprintf("W=%d M=%d: after [%s] a push or finish on the real queue never returns", w, m, tqEvString(h)), map[string]any{"lasso": &tqLasso{W: w, M: m, Peers: npeers, Stem: h, Rounds: 0}})
+				continue
+			}
 			if errs != "" {
 				continue
 			}
@@ -512,6 +523,28 @@ func runC21(c *core.Ctx) {
 			c.Violate("queued-outgoing-request-never-executed/requestor-instance", fmt.Sprintf("%srequests that were answered and not cancelled did not complete: %v (stats %s)", what, notDone, stats), mc)
 		}
 	}
+	// incoming side with pauses: two workers, per-peer maximum 1, a request paused by the request hook, a
+	// stalled send under a one-block allowance (so that a running response stays active across quiescent
+	// points), every sequence of up to 3 distinct events from {resume (with/without extensions), cancels,
+	// release the send, a further request of the same peer}
+	for _, rc := range c23RspMultiCases() {
+		if rc.M == 0 {
+			continue
+		}
+		idx++
+		if !c.Mine(idx) {
+			continue
+		}
+		v := c23RspMultiJudge(rc)
+		c.Res.Evaluations++
+		c.Res.Traces++
+		c.Res.Transitions += int64(len(rc.Evs) + 2)
+		c.Class(fmt.Sprintf("responder-instance-with-pauses max-active=%d", c23RspMaxActive))
+		c.Count("responder_pause_histories", 1)
+		if v != nil && (strings.HasPrefix(v.Signature, "per-peer-limit-exceeded") || strings.HasPrefix(v.Signature, "too-many-requests-active") || strings.HasPrefix(v.Signature, "request-never-completes") || strings.HasPrefix(v.Signature, "panic")) {
+			c.Violate(v.Signature+"-instance-with-pauses", v.What, rc)
+		}
+	}
 	// whole-instance part: a real responder with configured limits serving three
 	// requests of one peer (responder world, rsp.go)
 	for _, w := range []int{1, 2} {
@@ -637,7 +670,7 @@ func c21JudgeInstance(cs rspCase, o *rspObs) *core.Violation {
 
 func init() {
 	core.Register(&core.Prop{ID: "C21", Level: "model_checking",
-		Rule:        "(0') outgoing side: a real requestor with an outgoing maximum of 1, requests A, B (and C) to a scripted responder, every sequence of up to 3 distinct events from {cancel by context/API, responder answers, issue C}: at most one request running at every quiescent point and every answered, un-cancelled request completes; (0) whole instance: a real responder with MaxInProgressIncomingRequests W in {1,2} and per-peer maximum M in {0,1,2} serves three requests of one peer with cancels and late arrivals, event level and all schedules within deviation bound 1: active counts within the limits at every quiescent point, every received un-cancelled request completes; (a) scenarios W in {1,2,3} workers x per-peer maximum M in {0,1,2} x 6 (thorough 8) task layouts over <=3 peers (one pusher thread per peer, one finisher thread per task so completion order is a scheduling choice) + removals racing with pops; all schedules within the deviation bound on the real WorkerTaskQueue; (b) explicit-state search for starvation lassos: BFS over push/finish event histories on the real queue and workers (quiescing after each event), abstract state = per-peer (pending, running), a cycle along which another peer's single queued task is never started while tasks start and finish, then pumped 100 rounds on the real queue; a class is a distinct (W, M, ran/not-run) outcome",
+		Rule:        "(0'') incoming side with pauses: 2 workers, per-peer maximum 1, a request paused by the request hook and resumed, a stalled send under a one-block allowance, a further request of the same peer, every sequence of up to 3 distinct events: the peer never has more than one request active at a quiescent point and every un-cancelled request completes; (0') outgoing side: a real requestor with an outgoing maximum of 1, requests A, B (and C) to a scripted responder, every sequence of up to 3 distinct events from {cancel by context/API, responder answers, issue C}: at most one request running at every quiescent point and every answered, un-cancelled request completes; (0) whole instance: a real responder with MaxInProgressIncomingRequests W in {1,2} and per-peer maximum M in {0,1,2} serves three requests of one peer with cancels and late arrivals, event level and all schedules within deviation bound 1: active counts within the limits at every quiescent point, every received un-cancelled request completes; (a) scenarios W in {1,2,3} workers x per-peer maximum M in {0,1,2} x 6 (thorough 8) task layouts over <=3 peers (one pusher thread per peer, one finisher thread per task so completion order is a scheduling choice) + removals racing with pops; all schedules within the deviation bound on the real WorkerTaskQueue; (b) explicit-state search for starvation lassos: BFS over push/finish event histories on the real queue and workers (quiescing after each event), abstract state = per-peer (pending, running), a cycle along which another peer's single queued task is never started while tasks start and finish, then pumped 100 rounds on the real queue; a class is a distinct (W, M, ran/not-run) outcome",
 		Assumptions: []string{"a task's duration is the scheduling of its finisher thread", "eventually = at final quiescence after the ticker horizon (6 idle thaw ticks)", "lasso abstraction: per-peer counts; every reported lasso is confirmed by replaying 100 rounds on the real queue"},
 		Run:         runC21, QuickBudget: 300, ThoroughBudget: 2400,
 		Replay: func(raw json.RawMessage) string {
@@ -649,6 +682,13 @@ func init() {
 			}
 			if err := json.Unmarshal(raw, &w); err != nil {
 				return err.Error()
+			}
+			var rmc c23RspMulti
+			if json.Unmarshal(raw, &rmc) == nil && rmc.RspMulti {
+				if v := c23RspMultiJudge(rmc); v != nil {
+					return v.Signature + "-instance-with-pauses: " + v.What
+				}
+				return "ok"
 			}
 			var mc c23Multi
 			if json.Unmarshal(raw, &mc) == nil && mc.Multi {
